@@ -199,8 +199,8 @@ fn run_errors(ctx: &mut Ctx) {
         |&(s, d), stats, viols| {
             stats.nontrivial(&json!([pt_name(s), pt_name(d)]));
             let same_count = pt_nc(s) == pt_nc(d);
-            for (dw, dh) in [(3u32, 2u32), (2, 3), (3, 1)] {
-                let src = Image::new(3, 2, s);
+            for (sw, sh, dw, dh) in [(3u32, 2u32, 3u32, 2u32), (3, 2, 2, 3), (3, 2, 3, 1), (0, 3, 3, 3), (3, 3, 3, 0), (0, 0, 0, 0), (0, 3, 0, 3), (0, 3, 3, 0), (0, 2, 0, 3)] {
+                let src = Image::new(sw, sh, s);
                 let mut dst = Image::new(dw, dh, d);
                 for b in dst.buffer_mut().iter_mut() {
                     *b = 0x5A;
@@ -208,9 +208,9 @@ fn run_errors(ctx: &mut Ctx) {
                 let before = dst.buffer().to_vec();
                 let r = fr::change_type_of_pixel_components(&src, &mut dst);
                 stats.count("error_path_calls", 1);
-                let should_ok = same_count && (dw, dh) == (3, 2);
+                let should_ok = same_count && (dw, dh) == (sw, sh);
                 if r.is_ok() != should_ok {
-                    viols.push(Viol::new("wrong_acceptance", format!("{} 3x2 -> {} {}x{}: {:?}", pt_name(s), pt_name(d), dw, dh, r)).sig(json!({"pair": "errors"})));
+                    viols.push(Viol::new("wrong_acceptance", format!("{} {}x{} -> {} {}x{}: {:?}", pt_name(s), sw, sh, pt_name(d), dw, dh, r)).sig(json!({"pair": "errors"})));
                 }
                 if r.is_err() && dst.buffer() != &before[..] {
                     viols.push(Viol::new("destination_touched_by_failed_call", format!("{} -> {} {}x{}", pt_name(s), pt_name(d), dw, dh)).sig(json!({"pair": "errors"})));
